@@ -140,7 +140,7 @@ def tlc(ctx, tag, module, module_text, cfg_text, env=None, workers=None, timeout
     d.mkdir(parents=True, exist_ok=True)
     (d / f"{module}.tla").write_text(module_text)
     (d / f"{module}.cfg").write_text(cfg_text)
-    cmd = ["java", f"-Xmx{heap}", "-XX:+UseParallelGC", f"-DTLA-Library={SPEC}", "-cp", JAR, "tlc2.TLC",
+    cmd = ["java", f"-Xmx{heap}", "-Xss256m", "-XX:+UseParallelGC", f"-DTLA-Library={SPEC}", "-cp", JAR, "tlc2.TLC",
            "-workers", str(workers or NCPU), "-metadir", str(d / "md"), "-config", f"{module}.cfg"]
     if coverage:
         cmd += ["-coverage", "1"]
